@@ -37,6 +37,14 @@ namespace {
 
 const bool no_exclude = std::getenv("VERIF_NO_EXCLUDE") != nullptr;
 
+//! statistics of observed maxima: non-finite values (a failing case is about to be reported) are not recorded
+inline void
+smax(const std::string& key, double v)
+{
+  if (std::isfinite(v))
+    stats().maxi(key, v);
+}
+
 // tolerances, all relative to the reference value of the bin
 const double TOL_SAME_E = 2e-6;    // e from x1 vs e from x2 (a few float roundings per member)
 const double TOL_INVERSE = 1e-5;   // apply(undo(x)) = x, as the design states
@@ -44,6 +52,12 @@ const double TOL_GROUPING = 1e-4;  // other grouping with an attenuation member 
 const double TOL_GEB = 2e-6;       // get_bin_efficiency vs e
 const double TOL_ATT = 1e-4;       // attenuation factors vs explicit matrix, as the design states
 const double TOL_EXACT_REF = 2e-6; // e vs reference for the classes without projector
+
+//! an inconsistency noticed by the harness itself: never a "rejected configuration"
+struct HarnessError : std::logic_error
+{
+  using std::logic_error::logic_error;
+};
 
 struct Flags
 {
@@ -70,7 +84,10 @@ struct Env
     vp::MatrixOpts o;
     o.num_tangential_LORs = lors;
     o.restrict_to_cylindrical_FOV = cyl;
-    return matrices.emplace(key, vp::ExplicitP::build(pdi_data, image, o)).first->second;
+    // the reference is the plain line integral along the LOR: attenuation does not depend on time of flight, so the rows are
+    // taken for the non-TOF geometry (matters only for "TOF" data mashed to ONE bin, which set_up accepts - finding F4)
+    shared_ptr<const ProjDataInfo> ref_pdi = pdi_data->is_tof_data() ? shared_ptr<const ProjDataInfo>(pdi_data->create_non_tof_clone()) : pdi_data;
+    return matrices.emplace(key, vp::ExplicitP::build(ref_pdi, image, o)).first->second;
   }
 };
 
@@ -96,13 +113,23 @@ struct Built
   std::string label;
 };
 
-//! cylinder radius for a spec (mm): fraction of the largest centred circle that keeps 1.5 voxels from the image edge
+//! radius (mm) inside which attenuation values are generated.  The projector traces rays from/to the FOV cylinder (or box) whose
+//! radius is min(imax,-imin) voxels; which voxel is first/last on a ray whose end point lies on a voxel boundary is a rounding
+//! tie that depends on the symmetry path (the tie class of C03).  mu vanishes within 2.5 voxels of that edge, so the line
+//! integrals do not depend on the tie (attenuating objects lie inside the FOV).
+double
+support_radius(const VoxelsOnCartesianGrid<float>& mu)
+{
+  const double vx = mu.get_voxel_size().x(), vy = mu.get_voxel_size().y();
+  const double fovrad = std::min(std::min(mu.get_max_x(), -mu.get_min_x()) * vx, std::min(mu.get_max_y(), -mu.get_min_y()) * vy);
+  return std::max(0., fovrad - 2.5 * std::max(vx, vy));
+}
+
+//! cylinder radius for a spec (mm)
 double
 cylinder_radius(const VoxelsOnCartesianGrid<float>& mu, const json& s)
 {
-  const double vx = mu.get_voxel_size().x(), vy = mu.get_voxel_size().y();
-  const double half = std::min(double(mu.get_x_size()) * vx, double(mu.get_y_size()) * vy) / 2. - 1.5 * std::max(vx, vy);
-  return std::max(0., half) * s["R_frac"].get<double>();
+  return support_radius(mu) * s["R_frac"].get<double>();
 }
 
 //! mu value actually used: capped so that the largest line integral stays below ~8 (exp() stays well inside float)
@@ -136,8 +163,14 @@ fill_mu(VoxelsOnCartesianGrid<float>& mu, const json& s)
   if (mode == "random")
     {
       vf::SplitMix g(s["seed"].get<uint64_t>());
-      for (auto it = mu.begin_all(); it != mu.end_all(); ++it)
-        *it = float(g.real(0., mu_max));
+      const double Rs = support_radius(mu);
+      for (int z = mu.get_min_z(); z <= mu.get_max_z(); ++z)
+        for (int y = mu.get_min_y(); y <= mu.get_max_y(); ++y)
+          for (int x = mu.get_min_x(); x <= mu.get_max_x(); ++x)
+            {
+              const double v = g.real(0., mu_max);
+              mu[z][y][x] = std::hypot(double(x) * mu.get_voxel_size().x(), double(y) * mu.get_voxel_size().y()) <= Rs ? float(v) : 0.F;
+            }
       return;
     }
   // uniform centred cylinder (all planes): voxels whose centre lies within R
@@ -189,7 +222,7 @@ build(const json& s, Env& env, const Flags& fl)
             bin.timing_pos_num() = 0;
           const long j = fx.bin_index(bin);
           if (j < 0)
-            error("harness: data bin outside the factor data");
+            throw HarnessError("harness: data bin outside the factor data");
           const double f = fac[std::size_t(j)];
           if (f == 0.)
             {
@@ -215,11 +248,17 @@ build(const json& s, Env& env, const Flags& fl)
       shared_ptr<ForwardProjectorByBin> fwd(new ForwardProjectorByBinUsingProjMatrixByBin(m));
       b.norm.reset(new BinNormalisationFromAttenuationImage(mu, fwd));
       // reference: explicit rows of a fresh symmetry-free cache-free matrix; mu in cm^-1, elements in units of the x voxel size
-      const vp::ExplicitP& P = env.matrix(o.num_tangential_LORs, o.restrict_to_cylindrical_FOV);
-      const std::vector<double> line = P.forward(P.image_to_vec(*mu));
-      const double rescale = double(mu->get_voxel_size().x()) / 10.;
-      for (long i = 0; i < N; ++i)
-        b.e[std::size_t(i)] = std::exp(-line[std::size_t(i)] * rescale);
+      // (data with more than one TOF bin are rejected by set_up; no reference is needed then)
+      if (env.pdi_data->get_num_tof_poss() == 1)
+        {
+          const vp::ExplicitP& P = env.matrix(o.num_tangential_LORs, o.restrict_to_cylindrical_FOV);
+          const std::vector<double> line = P.forward(P.image_to_vec(*mu));
+          if (long(line.size()) != N)
+            throw HarnessError("harness: reference matrix and data have different numbers of bins");
+          const double rescale = double(mu->get_voxel_size().x()) / 10.;
+          for (long i = 0; i < N; ++i)
+            b.e[std::size_t(i)] = std::exp(-line[std::size_t(i)] * rescale);
+        }
       b.geb = false; // "BinNormalisationFromAttenuationImage::get_bin_efficiency is not implemented"
       b.has_atten = true;
       b.exact_unit = false;
@@ -234,7 +273,7 @@ build(const json& s, Env& env, const Flags& fl)
       const Blocks B = Blocks::from(*env.sc);
       const auto* pdi = dynamic_cast<const ProjDataInfoCylindricalNoArcCorr*>(env.pdi_data.get());
       if (!pdi)
-        error("harness: components need cylindrical non-arc-corrected data");
+        throw HarnessError("harness: components need cylindrical non-arc-corrected data");
       const FanDims F = FanDims::from(*pdi, B);
       const uint64_t seed = s["seed"].get<uint64_t>();
       const int near_one = s["near_one"].get<int>(); // 0: random factors, 1: all exactly 1, 2: all within 1e-4 of 1
@@ -253,7 +292,7 @@ build(const json& s, Env& env, const Flags& fl)
         do_geo = false;
       // allocate(): BlockData3D(nb_ax, nb_tr, nb_ax-1, nb_tr-1): FanProjData constructor asserts an even "ring" size; it has no
       // cell for a block with itself, which apply_block_norm would index for two detectors of one block (see C20 notes, O2)
-      if (!(B.nb_tr >= 2 && B.nb_tr % 2 == 0 && F.new_half_fan <= B.nphys / 2 - B.p_tr))
+      if (!(B.nb_tr >= 2 && B.nb_tr % 2 == 0 && (no_exclude || F.new_half_fan <= B.nphys / 2 - B.p_tr)))
         do_block = false;
       if (!do_eff && !do_geo && !do_block)
         do_eff = true;
@@ -270,7 +309,7 @@ build(const json& s, Env& env, const Flags& fl)
         {
           DetectorEfficiencies& eff = n->crystal_efficiencies();
           if (eff.get_length() != B.nrphys || eff[0].get_length() != B.nphys)
-            error("harness: unexpected size of crystal_efficiencies()");
+            throw HarnessError("harness: unexpected size of crystal_efficiencies()");
           for (int r = 0; r < B.nrphys; ++r)
             for (int a = 0; a < B.nphys; ++a)
               eff[r][a] = val(0xeffULL, uint64_t(r) * 4096 + uint64_t(a), 0.2, 5.);
@@ -280,7 +319,7 @@ build(const json& s, Env& env, const Flags& fl)
         {
           GeoData3D& gd = n->geometric_factors();
           if (gd.get_num_axial_crystals_per_block() != unit_ax || gd.get_half_num_transaxial_crystals_per_block() * 2 != unit_tr)
-            error("harness: unexpected symmetry unit of geometric_factors()");
+            throw HarnessError("harness: unexpected symmetry unit of geometric_factors()");
           cl.reset(new c20::GeoClasses(B.nphys, B.nrphys, unit_tr, unit_ax));
           for (int ra = 0; ra < unit_ax; ++ra)
             for (int a = 0; a < unit_tr / 2; ++a)
@@ -359,8 +398,8 @@ build(const json& s, Env& env, const Flags& fl)
         {
           for (long i = 0; i < N; ++i)
             {
-              // 0 x inf (virtual crystal x zero factor) is outside every clause
-              b.e[std::size_t(i)] = (p.skip[std::size_t(i)] && b.skip[std::size_t(i)]) ? 0. : b.e[std::size_t(i)] * p.e[std::size_t(i)];
+              // 0 x inf (virtual crystal x zero factor) gives NaN: such a bin is outside every clause
+              b.e[std::size_t(i)] = b.e[std::size_t(i)] * p.e[std::size_t(i)];
               b.skip[std::size_t(i)] = b.skip[std::size_t(i)] || p.skip[std::size_t(i)];
             }
           b.geb = b.geb && p.geb;
@@ -373,7 +412,7 @@ build(const json& s, Env& env, const Flags& fl)
       b.label += "]";
     }
   else
-    error("harness: unknown normalisation kind");
+    throw HarnessError("harness: unknown normalisation kind");
   return b;
 }
 
@@ -401,7 +440,7 @@ pass_viewgrams(const BinNormalisation& N, const SymPtr& sym, const std::vector<d
             else
               N.apply(rv);
             if (pd.set_related_viewgrams(rv) != Succeeded::yes)
-              error("harness: set_related_viewgrams failed");
+              throw HarnessError("harness: set_related_viewgrams failed");
           }
       }
   return env.ix.projdata_to_vec(pd);
@@ -496,6 +535,10 @@ make_group(Group& G, const json& spec, Env& env, std::string& reason)
     {
       throw;
     }
+  catch (const HarnessError&)
+    {
+      throw;
+    }
   catch (const std::exception& e)
     {
       reason = e.what();
@@ -555,6 +598,12 @@ check(const json& c)
   const json& spec = c["norm"];
   const std::string top = spec["k"];
   const bool tof = env.pdi_data->is_tof_data();
+  if (!no_exclude && tof && env.pdi_data->get_num_tof_poss() == 1 && contains_kind(spec, "atten"))
+    {
+      // finding F4 (work/notes/C13_findings.md): excluded by construction in the generator; a hand-made case is not decided
+      stats().count("excluded: attenuation member with data mashed to one TOF bin (finding F4)");
+      return Result::reject("excluded class: known finding F4");
+    }
 
   // ---- object trees, one per grouping ---------------------------------------------------------------------------------
   std::vector<Group> groups;
@@ -620,12 +669,12 @@ check(const json& c)
         }
       const double e1 = U1[u] / x1[u], e2 = U2[u] / x2[u];
       VF_CHECK(e1 > 0 && std::isfinite(e1), R.label, ": undo multiplies ", bin_str(bin), " by ", e1, " (not a positive factor)");
-      stats().maxi("max rel dev e(x1) vs e(x2)", std::fabs(e1 - e2) / e1);
+      smax("max rel dev e(x1) vs e(x2)", std::fabs(e1 - e2) / e1);
       VF_CHECK(std::fabs(e1 - e2) <= TOL_SAME_E * e1, R.label, ": the factor of undo depends on the data at ", bin_str(bin), ": ", e1, " vs ", e2);
-      stats().maxi(R.has_atten ? "max rel dev e vs reference (with attenuation member)" : "max rel dev e vs reference (no projector)", std::fabs(e1 - er) / er);
+      smax(R.has_atten ? "max rel dev e vs reference (with attenuation member)" : "max rel dev e vs reference (no projector)", std::fabs(e1 - er) / er);
       VF_CHECK(std::fabs(e1 - er) <= R.tol_ref * er, R.label, ": undo multiplies ", bin_str(bin), " by ", e1, " but the efficiency is ", er);
       const double back = A1[u] * e1;
-      stats().maxi("max rel dev apply(x) e vs x", std::fabs(back - x1[u]) / x1[u]);
+      smax("max rel dev apply(x) e vs x", std::fabs(back - x1[u]) / x1[u]);
       VF_CHECK(std::fabs(back - x1[u]) <= TOL_SAME_E * 2 * x1[u], R.label, ": apply does not divide by the factor of undo at ", bin_str(bin), ": apply(x)=", A1[u],
                " x=", x1[u], " e=", e1);
     }
@@ -642,7 +691,7 @@ check(const json& c)
         const std::size_t u = std::size_t(i);
         if (R.skip[u])
           continue;
-        stats().maxi("max rel dev apply(undo(x)) vs x", std::max(std::fabs(AU[u] - x1[u]), std::fabs(UA[u] - x1[u])) / x1[u]);
+        smax("max rel dev apply(undo(x)) vs x", std::max(std::fabs(AU[u] - x1[u]), std::fabs(UA[u] - x1[u])) / x1[u]);
         VF_CHECK(std::fabs(AU[u] - x1[u]) <= TOL_INVERSE * x1[u], R.label, ": apply(undo(x)) != x at ", bin_str(env.ix.bins[u]), ": ", AU[u], " vs ", x1[u]);
         VF_CHECK(std::fabs(UA[u] - x1[u]) <= TOL_INVERSE * x1[u], R.label, ": undo(apply(x)) != x at ", bin_str(env.ix.bins[u]), ": ", UA[u], " vs ", x1[u]);
       }
@@ -656,11 +705,11 @@ check(const json& c)
       {
         const std::size_t u = std::size_t(i);
         // division by a zero efficiency (apply) or by a zero factor (undo) is outside the property: nothing to compare
-        if (R.skip[u] && (is_apply ? R.e[u] == 0. : std::isinf(R.e[u])))
+        if (R.skip[u] && (std::isnan(R.e[u]) || (is_apply ? R.e[u] == 0. : std::isinf(R.e[u]))))
           continue;
         const double d = std::fabs(a[u] - b[u]);
         if (b[u] != 0)
-          stats().maxi(tol == 0 ? "max rel dev where identical results are required" : "max rel dev between groupings (attenuation member)", d / std::fabs(b[u]));
+          smax(tol == 0 ? "max rel dev where identical results are required" : "max rel dev between groupings (attenuation member)", d / std::fabs(b[u]));
         if (!(d <= tol * std::fabs(b[u])))
           return Result::fail(cat(R.label, ": ", what, " differ at ", bin_str(env.ix.bins[u]), ": ", a[u], " vs ", b[u]));
       }
@@ -735,7 +784,7 @@ check(const json& c)
                 continue;
               }
             const double e1 = U1[u] / x1[u];
-            stats().maxi("max rel dev get_bin_efficiency vs e", std::fabs(ge - e1) / e1);
+            smax("max rel dev get_bin_efficiency vs e", std::fabs(ge - e1) / e1);
             VF_CHECK(std::fabs(ge - e1) <= TOL_GEB * e1, R.label, ": get_bin_efficiency = ", ge, " but undo multiplies by ", e1, " at ", bin_str(env.ix.bins[u]));
           }
       }
@@ -793,7 +842,7 @@ check(const json& c)
                   continue;
                 const double L = std::log(A1[std::size_t(i)] / x1[std::size_t(i)]) * 10. / mu;
                 ++n;
-                stats().maxi("max |path - 2R| / voxel (cylinder anchor)", std::fabs(L - 2 * Rmm) / v);
+                smax("max |path - 2R| / voxel (cylinder anchor)", std::fabs(L - 2 * Rmm) / v);
                 VF_CHECK(std::fabs(L - 2 * Rmm) <= 2 * v + 0.01 * 2 * Rmm, "cylinder anchor: attenuation path through the axis = ", L, " mm, expected 2R = ",
                          2 * Rmm, " mm (voxel ", v, " mm, mu ", mu, " cm^-1) at ", bin_str(b));
               }
@@ -821,7 +870,7 @@ check(const json& c)
                 {
                   const std::size_t u = std::size_t(i);
                   const double acf_a = A1[u] / x1[u], acf_b = Ab[u] / x1[u], acf_s = As[u] / x1[u];
-                  stats().maxi("max rel dev ACF(mu1+mu2) vs product", std::fabs(acf_s - acf_a * acf_b) / (acf_a * acf_b));
+                  smax("max rel dev ACF(mu1+mu2) vs product", std::fabs(acf_s - acf_a * acf_b) / (acf_a * acf_b));
                   VF_CHECK(std::fabs(acf_s - acf_a * acf_b) <= TOL_ATT * acf_a * acf_b, "ACF(mu1+mu2) = ", acf_s, " but ACF(mu1) ACF(mu2) = ", acf_a, " x ", acf_b,
                            " at ", bin_str(env.ix.bins[u]));
                 }
@@ -937,13 +986,17 @@ gen(Src& s, int size)
       else
         {
           vg::ScannerOpts so;
-          so.max_ndet = comp ? 32 : (size < 40 ? 24 : 40);
-          so.max_rings = 4;
+          so.max_ndet = comp ? 32 : (size < 40 ? 24 : 48);
+          so.max_rings = size < 40 ? 3 : 5;
           // TOF: fine for trivial / from-projdata; attenuation and components reject TOF data at set_up (kept as a small class)
           so.allow_tof = (!comp && !att) || s.chance(1, 12);
           so.allow_blocks = false;
           so.allow_tilt = true;
           c["scanner"] = vg::gen_scanner(s, so);
+          // TOF data with non-TOF (and TOF) factors is a class of its own: make it frequent for the from-projdata cases
+          if (so.allow_tof && !comp && !att && s.coin())
+            for (int k = 0; k < 3 && c["scanner"]["tof_poss"].get<int>() == 0; ++k)
+              c["scanner"] = vg::gen_scanner(s, so);
         }
       shared_ptr<Scanner> sc = c20::make_scanner(c["scanner"]);
       vg::PdiOpts po;
@@ -982,6 +1035,10 @@ gen(Src& s, int size)
                 break;
             }
         }
+      if (att && !no_exclude && p["tof_mash"].get<int>() > 0 && p["tof_mash"].get<int>() == sc->get_max_num_timing_poss())
+        // finding F4 (excluded by construction): TOF data mashed to a single TOF bin pass the TOF test of
+        // BinNormalisationFromAttenuationImage::set_up, and the projector then applies the TOF kernel to the attenuation integral
+        p["tof_mash"] = 0;
       c["pdi"] = p;
       long bins = 0;
       try
@@ -1009,14 +1066,20 @@ gen(Src& s, int size)
   json im = vg::gen_image(s, io);
   im["vx_rel"] = s.pick(std::vector<double>{ 0.937, 0.937, 0.53, 1.871, 1.419, 0.7687 });
   im["vy_rel"] = s.pick(std::vector<double>{ 0.937, 0.53, 1.871, 1.283 });
+  if (att)
+    {
+      // room for an object inside the FOV
+      im["nx"] = std::max(9, im["nx"].get<int>());
+      im["ny"] = std::max(9, im["ny"].get<int>());
+    }
   if (spec["k"] == "atten" && spec["mode"] == "cylinder")
     {
       // standard axial extent: every direct plane of segment 0 lies inside the image
       im["z_div"] = 1;
       im["nz_extra"] = 0;
       im["z_shift_planes"] = 0;
-      im["nx"] = std::max(9, im["nx"].get<int>());
-      im["ny"] = std::max(9, im["ny"].get<int>());
+      im["nx"] = std::max(15, im["nx"].get<int>());
+      im["ny"] = std::max(15, im["ny"].get<int>());
     }
   c["image"] = im;
   c["norm"] = spec;
